@@ -78,7 +78,12 @@ def _check_where(eng, sql, node, cols, argnames, tag):
     walk(stn.select.where)
     got = [c.left.parts[-1] for c in conj if isinstance(c, A.BinOp) and c.op == '=' and isinstance(c.right, A.Param)]
     passed = [pyast.unparse(x) for x in node.args[1].elts] if len(node.args) > 1 and isinstance(node.args[1], pyast.Tuple) else []
-    eng.ctx.add(core.decided('%s/%s-is-keyed-by-%s' % (eng.label, tag, '+'.join(cols)), got == cols and passed == argnames, 'where=%r args=%r' % (got, passed), kind='scan'))
+    # the i-th `col = %s` conjunct is bound to the i-th argument (the statement has no other placeholders); the lookup must be
+    # keyed by the listed columns bound to the listed arguments - further conjuncts (e.g. an owner filter) only narrow it
+    n_params = sql.count('%s')
+    pairs = list(zip(got, passed)) if len(got) == len(passed) == n_params else []
+    ok = all((c, a) in pairs for c, a in zip(cols, argnames))
+    eng.ctx.add(core.decided('%s/%s-is-keyed-by-%s' % (eng.label, tag, '+'.join(cols)), ok, 'where=%r args=%r' % (got, passed), kind='scan'))
 
 
 def _insertone(eng, st, args, kw, node):
